@@ -1,6 +1,6 @@
 GO_PKG = "."
 GO_PKGNAME = "dht"
-HARNESS = ["dht/sim_test.go", "dht/lookup_test.go"]
+HARNESS = ["dht/sim_test.go", "dht/lookup_test.go", "dht/world_test.go"]
 GO_TEST = "TestVerifC02"
 RUN_MODULE = "Run_C02"
 COQ_TARGETS = ["Corr/Run_C02.vo", "Proofs/LookupConvergence.vo"]
